@@ -38,6 +38,11 @@ def gen(rng, fmt=None, mint=2, longspan=None):
         h = h0 + t * step
         d = yy * 1000 + jjj + h // 24          # stays within the year for the chosen values except day 365/366
         flags.append([d, (h % 24) * 100])
+    if rng.random() < 0.2:
+        # end-of-day labelling: midnight written as hour 24 of the day that ends (2200, 2300, 2400 on one julian day)
+        for t in range(1, nt):
+            if flags[t][1] == 0 and flags[t][0] == flags[t - 1][0] + 1 and flags[t - 1][1] != 2400:
+                flags[t] = [flags[t - 1][0], 2400]
     per = {'one3d': nz, 'temperature': nz + 1, 'height_pressure': 2 * nz}[kind]
     data = [[[camx.rand_f32_bits(rng) for _ in range(nx * ny)] for _ in range(per)] for _ in range(nt)]
     return dict(fmt=fmt, nx=nx, ny=ny, nz=nz, flags=flags, data=data)
